@@ -746,7 +746,7 @@ func sameOrPhiOf(x, ev ssa.Value) bool {
 // function outside the generated code, is nil-tested on every path to a
 // dereference of the loaded value (directly, or by a callee it is handed to).
 func optionalFieldsChecked(r *Report, p *Program, rule string, floor int) {
-	r.Rule(rule, "optional API fields (pointer-typed, omitempty, package apis/metacontroller/v1alpha1) are nil-tested on every path from the load to a dereference, also through callees the value is handed to")
+	r.Rule(rule, "optional API fields (pointer-typed, package apis/metacontroller/v1alpha1 — controller specs and hook answers) are nil-tested on every path from the load to a dereference, also through callees the value is handed to")
 	optional := func(fa *ssa.FieldAddr) (string, bool) {
 		pt, ok := fa.X.Type().Underlying().(*types.Pointer)
 		if !ok {
@@ -761,9 +761,8 @@ func optionalFieldsChecked(r *Report, p *Program, rule string, floor int) {
 		if _, isPtr := fld.Type().Underlying().(*types.Pointer); !isPtr {
 			return "", false
 		}
-		if !strings.Contains(st.Tag(fa.Field), "omitempty") {
-			return "", false
-		}
+		// (with or without omitempty: a pointer field is nil whenever the JSON leaves it out or says null —
+		// hook answers such as RelatedResourceRule's embedded *LabelSelector included)
 		return nm.Obj().Name() + "." + fld.Name(), true
 	}
 	ord := map[string]int{}
@@ -1115,6 +1114,63 @@ func constantSlicesBounded(r *Report, p *Program, rule string, floor int) {
 				})
 				r.Check(rule, c, p.InstrPos(in), w == nil, "length established before slicing", sf("%s[:%d] is reached on a path that has not established len ≥ %d: shorter values panic (slice bounds out of range)", E(sl.X), n, n))
 			}
+		}
+	}
+	r.Floor(rule, floor)
+}
+
+// retriesReallyRetry: every retry.RetryOnConflict in the module is given a backoff that allows more than one
+// attempt: client-go's own DefaultRetry/DefaultBackoff, or a module-level wait.Backoff whose Steps is a constant ≥ 2
+// (Steps counts attempts, not retries).
+func retriesReallyRetry(r *Report, p *Program, rule string, floor int) {
+	r.Rule(rule, "every RetryOnConflict uses retry.DefaultRetry/DefaultBackoff or a backoff with constant Steps ≥ 2")
+	ord := map[string]int{}
+	stepsOf := func(g *ssa.Global) (int64, bool) {
+		// the package initializer stores the literal's fields
+		init := g.Pkg.Func("init")
+		if init == nil {
+			return 0, false
+		}
+		for _, b := range init.Blocks {
+			for _, in := range b.Instrs {
+				st, isS := in.(*ssa.Store)
+				if !isS {
+					continue
+				}
+				fa, isFA := st.Addr.(*ssa.FieldAddr)
+				if !isFA || fa.X != ssa.Value(g) || fieldName(fa) != "Steps" {
+					continue
+				}
+				if c, isC := st.Val.(*ssa.Const); isC && c.Value != nil && c.Value.Kind() == constant.Int {
+					n, _ := constant.Int64Val(c.Value)
+					return n, true
+				}
+			}
+		}
+		return 0, false
+	}
+	for _, f := range p.Scanned {
+		k := FK(f)
+		if !strings.HasPrefix(k, engine.ModPrefix) || strings.Contains(k, "/pkg/client/generated") || strings.Contains(k, "zzmcvetcontrols") {
+			continue
+		}
+		for _, cs := range callsTo(f, false, "util/retry.RetryOnConflict", "util/retry.OnError") {
+			key := Short(k) + "→RetryOnConflict"
+			c := sf("%s#%d", key, ord[key])
+			ord[key]++
+			a := cs.Common().Args[0]
+			ok, why := false, "the backoff is "+E(a)+": not recognisably one that allows a second attempt"
+			if u, isU := a.(*ssa.UnOp); isU && u.Op == token.MUL {
+				if g, isG := u.X.(*ssa.Global); isG {
+					if g.Pkg != nil && strings.HasSuffix(g.Pkg.Pkg.Path(), "client-go/util/retry") {
+						ok = true
+					} else if n, found := stepsOf(g); found {
+						ok = n >= 2
+						why = sf("the backoff %s has Steps = %d: Steps counts attempts, so the write is tried once and a single conflict is final (no re-read, no retry)", g.Name(), n)
+					}
+				}
+			}
+			r.Check(rule, c, p.InstrPos(cs.Instr), ok, "backoff allows a retry", why)
 		}
 	}
 	r.Floor(rule, floor)
